@@ -78,6 +78,8 @@ pub enum Fam {
     Numbers,
     Nested,
     Exact,
+    /// one text under the regex wildcard spellings the rewrite pass strips (`.*x`, `x.*`, `.*x.*`, `x`)
+    RegexWild,
 }
 
 pub fn members(f: Fam, k: usize, dup: bool) -> Vec<RVal> {
@@ -100,10 +102,18 @@ pub fn members(f: Fam, k: usize, dup: bool) -> Vec<RVal> {
             Fam::Numbers => RVal::Int((i as i64 + 1) * 10),
             Fam::Nested => RVal::Map(vec![(Key::plain(&format!("a{}", i)), RVal::Str("v".into()))]),
             Fam::Exact => RVal::Str(format!("t{}.", i)),
+            Fam::RegexWild => RVal::Str(match i % 4 {
+                0 => format!("?.*t{}\\.", i),
+                1 => format!("?t{}\\..*", i),
+                2 => format!("?.*t{}\\..*", i),
+                _ => format!("?t{}\\.", i),
+            }),
         })
         .collect();
     if dup && k >= 1 {
-        let d = v[0].clone();
+        // (for the wildcard family the repeated member is member 0 under another spelling: still
+        // a member of its own, true exactly when member 0 is)
+        let d = if f == Fam::RegexWild { RVal::Str("?t0\\..*".into()) } else { v[0].clone() };
         v.push(d);
     }
     v
@@ -113,7 +123,7 @@ pub fn members(f: Fam, k: usize, dup: bool) -> Vec<RVal> {
 pub fn value_for(f: Fam, k: usize, mask: u32) -> Option<DVal> {
     let bits: Vec<bool> = (0..k).map(|i| mask & (1 << i) != 0).collect();
     match f {
-        Fam::Contains | Fam::IContains | Fam::Regex | Fam::IRegex | Fam::MixedStrings => {
+        Fam::Contains | Fam::IContains | Fam::Regex | Fam::IRegex | Fam::MixedStrings | Fam::RegexWild => {
             if matches!(f, Fam::MixedStrings) && k >= 5 && bits[4] {
                 // the suffix member (index 4) needs its token last
                 let mut s: String = bits.iter().enumerate().filter(|(i, b)| **b && *i != 4).map(|(i, _)| format!("t{}.", i)).collect();
@@ -195,6 +205,23 @@ fn check_pair(rep: &mut Report, rf: &Ref, qa: &RuleAst, ea: Option<&RuleAst>, do
     if let Some(w) = refi::verdict(exp) {
         if w != got {
             rep.violation("reference", &format!("c08-reference:{}", label), &format!("{}: engine {} , member counting gives {} on {}", label, got, refi::ts_name(exp), doc.to_json_text()), mon::case(&qt, doc, None, json!(w), json!(got), json!({})));
+            return;
+        }
+        // "however the members are batched internally": the optimiser re-batches and rewrites the
+        // members of a key list; the count stays the authors' (key-level quantifiers only: what
+        // the passes do to a condition-level quantifier is C01's open finding)
+        if label.starts_with("key ") {
+            for sw in [eng::Sw(15), eng::Sw(4), eng::Sw(6), eng::Sw(2)] {
+                rep.evaluations += 1;
+                if let Ok(o) = eng::optimise(&qr, sw) {
+                    if let Ok(v) = eng::matches(&o, &m) {
+                        if v != w {
+                            rep.violation("reference", &format!("c08-reference-opt:{}", label), &format!("{}: optimised [{}] engine {} , member counting gives {} on {}", label, sw.name(), v, refi::ts_name(exp), doc.to_json_text()), mon::case(&qt, doc, Some(sw), json!(w), json!(v), json!({})));
+                            return;
+                        }
+                    }
+                }
+            }
         }
     }
 }
@@ -297,7 +324,7 @@ fn ident_rules(q: &Q, entries: &[(Key, RVal)], as_seq: bool) -> (RuleAst, Option
 
 pub fn run(ctx: &Ctx) -> i32 {
     let rf = Ref::default();
-    let fams = [Fam::Contains, Fam::IContains, Fam::Regex, Fam::IRegex, Fam::MixedStrings, Fam::Prefixes, Fam::Thresholds, Fam::Numbers, Fam::Nested, Fam::Exact];
+    let fams = [Fam::Contains, Fam::IContains, Fam::Regex, Fam::IRegex, Fam::MixedStrings, Fam::Prefixes, Fam::Thresholds, Fam::Numbers, Fam::Nested, Fam::Exact, Fam::RegexWild];
     let maxk = ctx.size(4, 5);
     let mut work: Vec<(Fam, usize, bool)> = vec![];
     for f in fams {
@@ -482,7 +509,7 @@ pub fn run(ctx: &Ctx) -> i32 {
         ctx,
         rep,
         Meta {
-            rule: format!("member families (contains, i-contains, regex, i-regex, mixed string kinds, nested prefixes, numeric thresholds, integers, nested mappings) x list length 1..{} (+ a duplicated member) x quantifier {{plain, all, of(n) for n in 0..len+1}} x every subset of members made true by a scalar field value (complete for each family) x {{key list, condition-level quantifier over a sequence identifier, over a mapping identifier}}; each quantified rule is compared with the same rule written out with explicit and/or/not over one-member identifiers (both run by the real engine) and with member counting in the reference interpreter; plus two- and three-element array fields whose elements make chosen member subsets true (string families), random mixed member lists and identifiers whose entries are lists. non-trivial = number of true members within 1 of the threshold; distinct by (form, family, length, threshold, true members)", maxk),
+            rule: format!("member families (contains, i-contains, regex, i-regex, regexes under the wildcard spellings the rewrite pass strips, mixed string kinds, nested prefixes, numeric thresholds, integers, nested mappings) x list length 1..{} (+ a duplicated member) x quantifier {{plain, all, of(n) for n in 0..len+1}} x every subset of members made true by a scalar field value (complete for each family) x {{key list, condition-level quantifier over a sequence identifier, over a mapping identifier}}; each quantified rule is compared with the same rule written out with explicit and/or/not over one-member identifiers (both run by the real engine) and with member counting in the reference interpreter (key lists also after optimisation with four switch sets); plus two- and three-element array fields whose elements make chosen member subsets true (string families), random mixed member lists and identifiers whose entries are lists. non-trivial = number of true members within 1 of the threshold; distinct by (form, family, length, threshold, true members)", maxk),
             exhaustive: true,
             assumptions: vec!["on an array-valued field only the bracket of the two readings is checked (true when one element alone reaches the threshold, not true when the union of all elements does not)".into(), "all(X)/of(X,n) over a one-entry mapping whose value is a list is left open (Appendix A)".into()],
             min_nontrivial: 300,
